@@ -1,0 +1,7 @@
+//go:build !verif
+
+package interpreter
+
+import "context"
+
+func verifEmit(ctx context.Context, event string, args ...any) {}
